@@ -107,9 +107,25 @@ def runF (j : Json) : Except String Json := do
       | none => throw "bad def index"
     else if kind == "call" then
       let c ← callOfJson pool a
-      let (fn', o, t) := fn.call cfg c
+      -- specification side (not part of the model): the documented rule on the key the entry point builds
+      let fb : Option Fn := if fn.compiled then some fn else (match fn.compile with | .ok f => some f | .error _ => none)
+      let specInfo : List (String × Json) := match fb with
+        | none => [("bind", Json.null)]
+        | some fb =>
+          match entry fb.ana c with
+          | .error _ => [("bind", toJson false)]
+          | .ok x =>
+            let ms := fb.mm.meths
+            let sp := match specResolve cfg.H ms x.key with
+              | .ran h => (match fb.defns[h]? with | some e => SpecRes.ran e.1.d.id | none => SpecRes.ran 9999)
+              | r => r
+            [("bind", toJson true), ("spec", specToJson sp), ("static", toJson (staticTable ms)),
+             ("cc", toJson (candComparable cfg.H ms x.key)), ("tie", toJson (sigTieOK cfg.H ms x.key)),
+             ("napp", toJson (applicable cfg.H ms x.key).length), ("keylen", toJson x.key.length),
+             ("truncated", toJson (decide (x.passPos.length + x.passKw.length < c.pos.length + c.kw.length)))]
+      let (fn', o, t, nres) := fn.call cfg c
       fn := fn'
-      out := out.push (Json.mkObj [("o", outcomeToJson o), ("t", traceToJson t)])
+      out := out.push (Json.mkObj ([("o", outcomeToJson o), ("t", traceToJson t), ("nres", toJson nres)] ++ specInfo))
     else throw s!"bad op {kind}"
   return Json.mkObj [("ops", Json.arr out)]
 
